@@ -1,0 +1,43 @@
+//go:build verif
+
+// Contracts for nsq_to_nsq (C20), checked by nsqvc. Comment-only file.
+// Assumed library contracts and ghost observers: .trusted/relay.spec.
+
+package main
+
+//@ func (ph *PublishHandler) shouldPassMessage(js map[string]interface{}) (bool, bool)
+//@   props C20
+//@   requires ph != nil && requireJSONField != nil && requireJSONValue != nil
+//@   ensures[no-filter-passes] *requireJSONField == "" ==> result0 && !result1
+//@   ensures[backoff-only-when-dropped] result1 ==> !result0
+//@   modifies ph.requireJSONNumber, ph.requireJSONValueIsNumber, ph.requireJSONValueParsed
+
+//@ func filterMessage(js map[string]interface{}, rawMsg []byte) ([]byte, error)
+//@   props C20
+//@   ensures[no-whitelist-unmodified] len(whitelistJSONFields) == 0 ==> result0 == rawMsg && result1 == nil
+//@   modifies mapstore(map[string]any)
+
+// go-nsq finishes the source message when the handler returns nil - unless auto-response was
+// disabled, in which case responder() finishes / requeues it when the transaction completes.
+// So: auto-response is disabled only after the destination producer accepted the transaction,
+// an error (=> requeue) is returned whenever it refused, and exactly one transaction is started.
+//@ pred validRelayPH(ph *PublishHandler) := (ph != nil && len(ph.addresses) >= 1 && (ph.mode == ModeHostPool ==> ph.hostPool != nil) && (ph.mode == ModeRoundRobin || ph.mode == ModeHostPool))
+//@ pred noFilter() := (old(*requireJSONField) == "" && len(old(whitelistJSONFields)) == 0)
+//@ func (ph *PublishHandler) HandleMessage(m *nsq.Message, destinationTopic string) error
+//@   props C20
+//@   requires validRelayPH(ph) && m != nil
+//@   requires[flags-initialised] requireJSONField != nil && requireJSONValue != nil
+//@   ensures[handed-over-only-if-accepted] autoResponseDisabled > old(autoResponseDisabled) ==> result == nil && asyncCalls == old(asyncCalls) + 1 && !asyncRefused && autoResponseDisabled == old(autoResponseDisabled) + 1
+//@   ensures[refused-means-requeue] asyncCalls > old(asyncCalls) && asyncRefused ==> result != nil && autoResponseDisabled == old(autoResponseDisabled)
+//@   ensures[at-most-one-transaction] asyncCalls <= old(asyncCalls) + 1
+//@   ensures[unfiltered-always-forwarded] noFilter() ==> asyncCalls == old(asyncCalls) + 1 && asyncLastTopic == destinationTopic
+//@   ensures[nil-without-transaction-only-when-filtered] result == nil && asyncCalls == old(asyncCalls) ==> !noFilter()
+//@   modifies ph.counter, ph.requireJSONNumber, ph.requireJSONValueIsNumber, ph.requireJSONValueParsed, lastNow, asyncCalls, asyncRefused, asyncLastTopic, autoResponseDisabled, deref([]string), deref(map[string]any), mapstore(map[string]any)
+
+//@ func (t *TopicHandler) HandleMessage(m *nsq.Message) error
+//@   props C20
+//@   requires t != nil && validRelayPH(t.publishHandler) && m != nil
+//@   requires[flags-initialised] requireJSONField != nil && requireJSONValue != nil
+//@   ensures[handed-over-only-if-accepted] autoResponseDisabled > old(autoResponseDisabled) ==> result == nil && asyncCalls == old(asyncCalls) + 1 && !asyncRefused
+//@   ensures[refused-means-requeue] asyncCalls > old(asyncCalls) && asyncRefused ==> result != nil && autoResponseDisabled == old(autoResponseDisabled)
+//@   ensures[destination-topic] noFilter() ==> asyncCalls == old(asyncCalls) + 1 && asyncLastTopic == t.destinationTopic
